@@ -378,6 +378,9 @@ class _NumericOperationsImpl(OperationsBlock):
                         opx.const([], dtype=dtypes.int64),
                     )
                 )
+        # onnxruntime mishandles negative axes when reducing zero-size input
+        if axis < 0:
+            axis += x.ndim
         return _via_i64_f64(
             lambda x: opx.arg_max(x, axis=axis, keepdims=keepdims),
             [x],
@@ -406,6 +409,9 @@ class _NumericOperationsImpl(OperationsBlock):
                         opx.const([], dtype=dtypes.int64),
                     )
                 )
+        # onnxruntime mishandles negative axes when reducing zero-size input
+        if axis < 0:
+            axis += x.ndim
         return _via_i64_f64(
             lambda x: opx.arg_min(x, axis=axis, keepdims=keepdims),
             [x],
